@@ -283,12 +283,14 @@ PROPS["C07"] = dict(
     rule=("a case is one seeded history (1-25 operations) over three referents (a copy-counting tracked object, a flag, two doubles, an int each), an owner actor that writes them directly, and up to four wrapper handles. "
           "Wrappers are built by closure, const_closure, closure_pointer, const_closure_pointer, optional(x, flag), xmasked_value, proxy_wrapper and xcomplex from source expressions of category "
           "{lvalue, const lvalue, prvalue, xvalue, const xvalue}; for rvalues the source temporary lives on the heap and is freed before the step ends (the injected end of lifetime). "
-          "Further steps write through a wrapper, copy it, assign or move-assign one into another, swap two, take its address, destroy it. After every step every live wrapper is read through its lvalue, const and rvalue accessors: "
+          "optional and xmasked_value are also built with closures of different kinds (lvalue value with an own flag, own value with the caller's flag). "
+          "Further steps write through a wrapper, copy it, assign or move-assign one into another, swap two, take its address (operator& on lvalue and const lvalue), destroy it, and construct/assign owning optionals from reference proxies (lvalue, const, moved, temporary) and back. "
+          "After every step every live wrapper is read through its lvalue, const and rvalue member accessors and the free value()/has_value()/real()/imag() functions; every rvalue accessor is applied to a temporary copy of the wrapper on the heap that is destroyed BEFORE the result is read (it must be an independent value for value closures and a reference to exactly the referent / the caller's flag for reference closures): "
           "wrappers built from an lvalue must read the referent's current value, designate its address (also through operator& / operator->), must not have copied it, and keep designating it after assignment (no rebinding); "
           "wrappers built from a temporary must read their own value, at an address that is neither a referent nor the dead temporary. forward_sequence and bitset element references are checked by dedicated steps. "
           "The closure_type trait table is evaluated once as a precondition of the model (static half; not simulation). Non-trivial: at least two state-changing steps. Distinct: distinct run digests."),
     probes=["wrapper_built_from_lvalue", "wrapper_built_from_temporary_that_died", "write_through_reference_wrapper", "owner_write_behind_wrapper", "reference_wrapper_copied", "value_wrapper_copied",
-            "wrapper_assigned", "wrapper_move_assigned", "wrappers_swapped", "swap_of_two_wrappers_onto_same_referent", "forward_sequence_checked", "bitset_reference_checked"],
+            "wrapper_assigned", "wrapper_move_assigned", "wrappers_swapped", "swap_of_two_wrappers_onto_same_referent", "forward_sequence_checked", "bitset_reference_checked", "cross_closure_kind_assignment"],
     components=dict(real=["include/xtl/xclosure.hpp", "include/xtl/xproxy_wrapper.hpp", "include/xtl/xoptional.hpp (closures, operator&)", "include/xtl/xmasked_value.hpp", "include/xtl/xcomplex.hpp (closures)", "include/xtl/xsequence.hpp (forward_sequence)", "include/xtl/xdynamic_bitset.hpp (xbitset_reference)"],
                     stub=["copy/move-counting tracked payload", "heap-allocated source temporaries whose lifetime the harness ends", "owner actor", "type-erased wrapper handles"]),
     assumptions=["the static half of the property (closure_type_t & co. on every cv/ref combination) is compile-time and outside this technique; only the entries the model relies on are evaluated, const-ness of by-value closures is not judged",
